@@ -23,13 +23,13 @@ CLAIMS = {
          'completion protocol (body on worker role, main_cb only via runInLoop after the body), cancel/cleanup shapes, join protocol, priority/FIFO shape, '
          'worker bound, no lock held across task bodies/join, main_cb only into Loop::runInLoop and no loop-thread-only entry in the worker role, retire decision atomic with leaving threads_cabinet', '§4 C05, §10.3 D24', 'lockset + atomic-region + CFG path rules over clang AST/CFG'),
  'C09': ('A1 lock discipline of logging globals and sink level tables, dispatch only under the global lock (call-graph who-may-call), atomic two-part '
-         'append, filter-before-output, truncation marking agreement over sinks, back-end re-framing guards, roll-over/disable ordering, no re-logging from sinks, record completeness (every formatter prints every field), level clamped into the level tables (interval abstract interpretation)', '§4 C09',
+         'append, filter-before-output, truncation marking agreement over sinks, back-end re-framing guards, roll-over/disable ordering, no re-logging from sinks, record completeness (every formatter prints every field; thread id and time obtained in the call itself), level clamped into the level tables (interval abstract interpretation)', '§4 C09',
          'lockset + who-may-call + CFG path rules over clang AST/CFG'),
  'C10': ('A1 pairwise common-lock race freedom with producer/backend/owner roles and thread phases, whole-append critical section incl. every external '
          'appendLockless caller, one critical section for a whole datum, FIFO hand-over and reset-after-callback, back-pressure guards, cleanup/quit-path flush order, acyclic lock order and no wait-for cycle (no role blocks on a mutex another role holds while waiting for it), chunk-copy arithmetic of the pipe buffer by linear forms per reaching definition (inside block and datum, min(request, free), size_ advanced by what was copied)', '§4 C10, §10.7',
          'lockset + lock-order + CFG path rules over clang AST/CFG'),
  'C11': ('hook-balance on every path of initialize/start (own hook matched by state advance or rollback, children rolled back in reverse), gated single '
-         'stop/cleanup hooks, pre-order/reverse-order iteration shape, required-only abort, Main()/Start()/Stop() sequencing', '§4 C11',
+         'stop/cleanup hooks, pre-order/reverse-order iteration (reverse iterators or down-counting index), required-only abort read off branch edges, every child swept unconditionally by stop/cleanup, Main()/Start()/Stop() sequencing', '§4 C11',
          'typestate-style path rules over clang AST/CFG'),
 }
 CLAIMS.update({
@@ -59,7 +59,7 @@ CLAIMS.update({
 CLAIMS.update({
  'C08': ('generation counter only grows, token/range/id guards agree over at/update/free and free-list threading, pooled types never new/delete (whole program) with '
          'one placement-new / one destructor per alloc/free, Fd reference-count pairing and close marking, no deferred task captures a still-registered managed pointer '
-         '(whole program)', '§4 C08', 'type rules + guard/pairing path rules over clang AST/CFG (templates via explicit instantiation TU)'),
+         '(whole program), foreach hands callbacks the live cell\'s pointer', '§4 C08', 'type rules + guard/pairing path rules over clang AST/CFG (templates via explicit instantiation TU)'),
  'C17': ('lifecycle propagation matrix over every composite and child field (delete/reset/install/ready/stop-pause-resume), base-hook must-call on every override, '
          'notifications only as cancellable deferred tasks cancelled by stop/reset/destructor, base lifecycle gates and single onFinal, held-back child results in '
          'serial composites, reset-before-rerun', '§4 C17', 'sibling-agreement matrix + must-call/path rules over clang AST/CFG'),
@@ -67,7 +67,7 @@ CLAIMS.update({
          'post shapes, scheduler cleanup/switch/schedule shapes, every routine-destroying site resumes the joiner, cancel exit withdraws the waiter token and passes on a wake-up addressed to it, success exit only through a re-test of the resource after wait()', '§4 C18', 'CFG path rules over clang AST/CFG (templates via explicit instantiation TU)'),
  'C19': ('constant tables equal tables generated from the standards\' formulae (Base64, CRC-16/32, AES S-box/inverse/Rcon, MD5 constants/shifts/order/state/padding, '
          'scalable-integer ranges), every constant-table subscript in range by interval evaluation, serializer/deserializer width and byte-order agreement, '
-         'capacity test before stores, digit validation, no carry lost in the 16-bit one\'s-complement checksum (interval abstract interpretation of the accumulator)', '§4 C19', 'constant-table conformance + interval evaluation/abstract interpretation + sibling agreement over clang AST/CFG'),
+         'capacity test before stores, digit validation, no carry lost in the 16-bit one\'s-complement checksum (interval abstract interpretation of the accumulator), AES round/permutation/matrix structure vs FIPS-197 (index expressions evaluated over finite domains), MD5::update width agreement (carry test and block loop)', '§4 C19, §10.7', 'constant-table conformance + interval evaluation/abstract interpretation + sibling agreement over clang AST/CFG'),
  'C20': ('seconds->milliseconds conversion wide enough for the operand\'s type range, re-arm before callback, next instant depends on max(now, previous target), '
          'time-zone symmetry, running<=>armed, out-parameter/strictly-after discipline of every calculateNextLocalTimeSec, day scans offer a full period of strictly-future days (interval abstract interpretation of the loop counter)', '§4 C20',
          'interval evaluation/abstract interpretation + data-dependence/path rules over clang AST/CFG'),
@@ -75,7 +75,7 @@ CLAIMS.update({
 CLAIMS['C07'] = ('index arithmetic of the byte buffer decided by linear constant propagation (every field an affine form over its entry value, relational '
                  'merges): 0 <= read <= write <= size re-established on every path class of every index-writing method; every internal memcpy/memmove inside source '
                  'and destination bounds, reading exactly the source\'s readable window, with exit indices denoting exactly the copied bytes; ensureWritableSize '
-                 'postcondition (room >= n, readable length unchanged); append/fetch reserve-copy-commit and min-copy-consume shapes; copy independence. FIFO equality '
+                 'postcondition (room >= n, readable length unchanged); append/fetch reserve-copy-commit and min-copy-consume shapes; copy independence incl. self-assignment alias safety; strong guarantee on allocation failure (nothing released or overwritten before a throwing new[]). FIFO equality '
                  'of contents as a history property stays undecided', '§10.6 (replaces the not-applicable of §5)',
                  'linear (affine) constant propagation + sign decision over chain slacks, on the clang CFG')
 NA = {
